@@ -295,7 +295,7 @@ func H_C15_tsig() {
 	qcopy := q.Copy()
 	_, reqMAC, gerr := TsigGenerate(qcopy, vC11Secret, "", false)
 	vAssume(gerr == nil)
-	what := vChoice("tamper", vParam("C15.tampers", 6))
+	what := vChoice("tamper", vParam("C15.tampers", 7))
 	victim := vChoice("victim", n)
 	running := reqMAC
 	var macs []string
@@ -304,7 +304,10 @@ func H_C15_tsig() {
 		if what == 2 && i == victim {
 			secret = vC11Secret2
 		}
-		if what == 1 && i == victim { // unsigned envelope
+		if (what == 1 || what == 6) && i == victim { // unsigned envelope (6: carrying an OPT as only additional record)
+			if what == 6 {
+				m.Extra = []RR{&OPT{Hdr: RR_Header{Name: ".", Rrtype: TypeOPT, Class: 1232}}}
+			}
 			b, err := m.Pack()
 			vAssume(err == nil)
 			return b
@@ -346,7 +349,7 @@ func H_C15_tsig() {
 		}
 	}
 	vObserve("tsig", what, victim, len(g.rrs), anyErr)
-	tampered := what == 1 || what == 2 || what == 4 || what == 5 || (what == 3 && victim > 0)
+	tampered := what == 1 || what == 2 || what == 4 || what == 5 || what == 6 || (what == 3 && victim > 0)
 	if !tampered {
 		vAssert(!anyErr && len(g.rrs) == n, "properly-chained-transfer-completes")
 	} else {
